@@ -167,7 +167,12 @@ CHECKS = {
              "fragment cycles through nested selections, impossible inline and named spreads, wrong declared variable types) at "
              "the applicable nodes of valid documents; the specification model (evaluated in Coq) says which rules each rewritten "
              "document breaks; when it breaks one, the engine must refuse and no resolver, type resolver or directive hook may "
-             "have run; the implementation model must report the engine's error set (tags, paths, locations for 19 rules). Two "
+             "have run; the implementation model must report the engine's error set (tags, paths, locations for 19 rules). Also "
+             "proved: the fragment-cycle rule answers `no error` EXACTLY for acyclic fragment graphs (sound and complete for every "
+             "graph with distinct names, fuel shown sufficient), a cyclic graph puts the walk in a refusing state and no later "
+             "rule undoes a refusal; and, re-checked against the CURRENT source on every run (harness/wiring.py -> "
+             "Gen/Wiring_gen.v -> Proofs/Wiring.v), every supported rule is registered in RULE_SET and invoked from exactly the "
+             "call sites the model transcribes, only the cycle rule aborting. Two "
              "recorded findings (known_findings.json) are attributed by Coq-evaluated region predicates. PARTIAL: completeness "
              "of the other rules at every site is decided per document, not proved.",
         note="Trusted: as C06. Documents with non-executable definitions are outside the document model (engine side only).",
@@ -208,7 +213,9 @@ CHECKS = {
              "valid schema models (all type kinds, several interfaces/implementers, unions, input objects, custom and "
              "type-system directives, extensions of every kind, with/without schema definition) with ~45 SDL-level violations; "
              "create_engine must raise and leave no usable engine; the build model must predict built/rejected AND the set of "
-             "error kinds (29 message families); the specification predicates must confirm the rewritten model breaks a rule. "
+             "error kinds (29 message families); the specification predicates must confirm the rewritten model breaks a rule. The "
+             "validator lists of _validate / _validate_extensions and the order of the steps of bake() are extracted from the "
+             "CURRENT source on every run and proved equal to the ones the model transcribes (Proofs/Wiring.v). "
              "PARTIAL: completeness for the remaining interface clauses and for invalid extensions is decided per model, not "
              "proved.",
         note="Trusted: Coq kernel, generators, SDL printer; the lark grammar (syntax verdicts) and inspect (awaitability) are "
